@@ -734,7 +734,7 @@ def inline_fresh_aliases(fn, ref_names) -> List[str]:
         base = chain[0]
         if stores.get(base, 0) != 0 or base not in params_of(fn):
             continue
-        if any(a in attr_stores for a in chain[1:]):
+        if any(a in attr_stores for a in chain[1:]) or chain[-1] in EXTERNALLY_REBOUND:
             continue
         # nested scopes that bind the same name keep their own variable: only replace in scopes where it is free
         class R(ast.NodeTransformer):
@@ -782,6 +782,32 @@ def _pure_expr(e) -> bool:
         elif isinstance(x, (ast.Yield, ast.YieldFrom, ast.Await, ast.NamedExpr, ast.Lambda, ast.ListComp, ast.SetComp, ast.DictComp, ast.GeneratorExp, ast.Starred)):
             return False
     return True
+
+
+def _apply_if_closer(fn, ref, step) -> list:
+    """run a normalisation step that replaces names by expressions on a copy of the function, and keep its result only if the function then differs from its
+    reference form in FEWER lines: such a step is there to undo a refactoring, never to rewrite code the reference tree does not have"""
+    import copy
+    from .spelling import changed_lines
+    if not ref.get("src"):
+        return []
+    trial = copy.deepcopy(fn)
+    done = step(trial)
+    if not done:
+        return []
+    ast.fix_missing_locations(trial)
+    try:
+        before, after = changed_lines(ref["src"], copy.deepcopy(fn)), changed_lines(ref["src"], copy.deepcopy(trial))
+    except Exception:
+        return []
+    if after <= before - 2 or after == 0:
+        # more than the removed definition line: at least one line that used the name is now a line of the reference form
+        fn.body = trial.body
+        return done
+    return []
+
+
+EXTERNALLY_REBOUND = {"_shape", "shape", "_data", "data"}     # attributes of npstructures objects that their own methods (ravel ...) bind anew
 
 
 def inline_fresh_cse(fn, ref_names) -> List[str]:
@@ -866,6 +892,12 @@ def inline_fresh_module_constants(tree: ast.Module, mt: dict) -> List[str]:
     for name, st in cands.items():
         if counts[name] != 1 or not _pure_expr(st.value) or not name.startswith("_") and not name.isupper():
             continue
+        if any(isinstance(x, (ast.Dict, ast.List, ast.Set)) or (isinstance(x, ast.Call) and isinstance(x.func, ast.Name) and x.func.id in ("dict", "list", "set", "defaultdict"))
+               for x in ast.walk(st.value)):
+            continue        # a container has identity: two evaluations are two objects (a module-level cache is not a constant)
+        if any(isinstance(x, (ast.Subscript, ast.Attribute)) and isinstance(x.ctx, ast.Store) and isinstance(x.value, ast.Name) and x.value.id == name for x in ast.walk(tree)) or \
+                any(isinstance(x, ast.AugAssign) and isinstance(x.target, ast.Name) and x.target.id == name for x in ast.walk(tree)):
+            continue        # written somewhere: not a constant
         if _re.search(r"\b" + _re.escape(name) + r"\b", ref_text):
             continue
         # the module of the reference tree must not have had this global at all: approximated by "no reference function mentions it" plus "it is not imported"
@@ -1612,7 +1644,9 @@ def normalize_module(tree: ast.Module, modname: str, table: Optional[dict] = Non
         if m:
             rename_locals(fn, m)
             stats["renamed"][qn] = m
-        inl = inline_fresh_temps(fn, ref["locals"]) + inline_fresh_aliases(fn, ref["locals"]) + inline_fresh_cse(fn, ref["locals"])
+        inl = inline_fresh_temps(fn, ref["locals"])
+        for step in (inline_fresh_aliases, inline_fresh_cse):
+            inl += _apply_if_closer(fn, ref, lambda f, step=step: step(f, ref["locals"]))
         if inl:
             stats["inlined"][qn] = inl
         if align_comps(fn, ref):
